@@ -36,6 +36,8 @@ def make_jobs(tier, seed):
 
 
 def random_grammar(r):
+    if r.random() < 0.04:
+        return common.permuted_pairs_grammar(r)
     depth = r.choice([2, 3, 3, 4, 4, 5, 6])
     g = gen.Gen(r, depth=depth, ndefs=(0, r.choice([2, 4, 8])), specs=r.random() < 0.4,
                 builtins=r.random() < 0.3, max_width=r.choice([2, 3, 4]),
